@@ -376,6 +376,7 @@ func init() {
 		o.peCond(fn("DigestPE", "pe_pad_needed", "(n : Z)", "bool", dgLeaves), "n != 0", 0)
 		o.peAssign(fn("DigestPE", "pe_pad_len", "(n : Z)", "Z", dgLeaves), "padding", 0)
 		o.hasStmt(d, "", "DigestPE", "certStart += padding", "pe_certstart_padded")
+		o.hasStmt(d, "", "DigestPE", "digester.imageDigest.Write(make([]byte, padding))", "pe_hashes_padding")
 		// ---- readTrailer
 		rtLeaves := map[string]string{"certSize": "cert_size", "certStart": "cert_start", "lastSection": "last_section", "n": "n"}
 		o.peCond(fn("readTrailer", "pe_tr_unsigned", "(cert_size : Z)", "bool", rtLeaves), "certSize", 0)
